@@ -48,6 +48,38 @@ def timeout_wrapped_sites(prog, f, r):
     return out
 
 
+def match_count_rule(ctx, rule, rn, rr, mc, ch, RW):
+    """a better delegation replaces the work-list *and* the match count together: every re-seeding of the work-list from a
+    delegation is accompanied by a definition of the match count from the same delegation (else the same referral stays
+    "better" for ever: no progress (C08), and a reply can re-delegate a zone the resolver is already inside (C06))"""
+    mc_defs = [(d, A.peel(rr._def_expr(d, 0))) for d in rn.defs().get(mc, [])]
+    n = 0
+    for d in rn.defs().get(ch, []):
+        e = A.peel(rr._def_expr(d, 0))
+        if not (any(x[0] == "await" and A.peel(x[1])[1] == RW for x in A.walk(e)) and A.last_field(e) == "hostnames"):
+            continue
+        n += 1
+        paired = False
+        for md, me in mc_defs:
+            if me[0] == "call" and me[1].endswith("Nameservers::match_count") and any(x[0] == "await" and A.peel(x[1])[1] == RW for x in A.walk(me)):
+                if md[0] == d[0] or rn.dominates(md[0], d[0]) or rn.dominates(d[0], md[0]):
+                    paired = True
+        ctx.check(paired, rule, "work-list:reseed-updates-match_count", "the match count is taken from the delegation whose hosts re-seed the work-list",
+                  "the work-list is re-seeded from a delegation but the match count is not updated from it: the same referral remains acceptable", rn.loc(d[0]))
+    ctx.floor(rule, "work-list re-seedings from a delegation", n, 1)
+
+
+def candidate_loop_vars(prog):
+    rn = prog.body_of(REC + "resolve_recursive_notimeout")
+    rr = A.Resolver(rn)
+    def _one(xs):
+        xs = sorted(set(x for x in xs if x is not None))
+        return xs[0] if len(xs) == 1 else None
+    ch = _one(A.root_local(rn, t["args"][0]) for b, t in A.call_blocks(rn, A.name_endswith("Vec::<T, A>::pop")))
+    mc = _one(l for l in A.locals_defined_as(rn, rr, lambda e: A.peel(e)[0] == "call" and A.peel(e)[1].endswith("Nameservers::match_count")) if rn.locals[l].get("user"))
+    return rn, rr, mc, ch
+
+
 def run(ctx):
     prog = ctx.prog
     ctx.rule("C08.1", "resolve_recursive/resolve_forwarding only await timeout(<=60 s, X_notimeout(..)); Elapsed -> Timeout error; nobody else enters X_notimeout from outside the cluster")
@@ -251,6 +283,7 @@ def run(ctx):
                 is_mc = (fn is rn and A.root_local(fn, t["args"][2]) == mc) or (ps is not None and mc is not None and ps.lstrip("^*") == rn.names.get(mc))
                 ctx.check(is_mc, "C08.6", "validate:current-match_count", "validate_nameserver_response(.., match_count)",
                           "validator called with match count %s" % A.show(e[2][2]), fn.loc(b))
+        match_count_rule(ctx, "C08.6", rn, rr, mc, ch, RW)
         # work-list re-seeding
         for d in rn.defs().get(ch, []):
             e = A.peel(rr._def_expr(d, 0))
